@@ -56,7 +56,7 @@ def with_hands(k):
     observers = None
     if k.get('observers'):
         observers = [ObservedPlayingPhase(kontract(k['bid'], k['decl']), p, set(C(c) for c in k['deal'][i])) for i, p in enumerate(SEATS)]
-    ops, obs, avail, oobs, acc_ops, choices = [], [], [], [[] for _ in SEATS], [], []
+    ops, obs, avail, oobs, acc_ops, choices = [], [], [], [dict(ops=[], obs=[]) for _ in SEATS], [], []
     trick = []
     n_real = 0
     while n_real < k['plays'] and not env.has_done():
@@ -90,6 +90,7 @@ def with_hands(k):
                 else:
                     q = r.choice(SEATS); c = r.randint(0, 51)
                 before = snapshot(env)
+                act = env.active_player
                 try:
                     env.play_card_by_player(C(c), q); ok = True
                 except Exception:
@@ -100,6 +101,7 @@ def with_hands(k):
                     feed(observers, oobs, c, q, len(acc_ops) == 1, k)
                     n_real += 1
                     break
+                feed(observers, oobs, c, q, False, k, accepted=False, active_before=act)
         else:
             pool = ids(res) if (k['policy'] == 'follow' or (k['policy'] == 'mixed' and r.random() < 0.6)) else ids(hand)
             c = r.choice(pool)
@@ -116,24 +118,37 @@ def with_hands(k):
     out = dict(ops=ops, obs=obs, final=[[ids(env.hands[p]) for p in SEATS], ids(env.used_cards), hist(env)], avail=avail, choices=choices)
     if observers:
         out['acc_ops'] = acc_ops
-        out['observers'] = [[oobs[i], [ids(o.hand), None if o.dummy_hand is None else ids(o.dummy_hand), hist(o)]] for i, o in enumerate(observers)]
+        out['observers'] = [[oobs[i]['ops'], oobs[i]['obs'], [ids(o.hand), None if o.dummy_hand is None else ids(o.dummy_hand), hist(o)]] for i, o in enumerate(observers)]
     return out
 
 
-def feed(observers, oobs, c, p, first, k):
+def osnap(o):
+    return (tuple(ids(o.hand)), None if o.dummy_hand is None else tuple(ids(o.dummy_hand)), tuple(proj(o)), json.dumps(hist(o)))
+
+
+def feed(observers, oobs, c, p, first, k, accepted=True, active_before=None):
+    """Feed an attempt to the observers.  An attempt the full-information game refused is fed to an observer only when that
+    observer is in a position to refuse it as well (out of turn, or a seat whose hand it knows)."""
     if not observers:
         return
     dummy = observers[0].dummy
     for i, o in enumerate(observers):
+        if not accepted:
+            knows = (p is SEATS[i]) or (p is dummy and o.dummy_hand is not None)
+            if not (p is not active_before or knows):
+                continue
+        before = osnap(o)
         try:
             o.play_card_by_player(C(c), p); ok = True
         except Exception:
             ok = False
-        if first and SEATS[i] is not dummy:
+        unchanged = osnap(o) == before
+        if ok and first and SEATS[i] is not dummy:
             dh = set(C(x) for x in k['deal'][SEATS.index(dummy)])
             dh.discard(C(c)) if p is dummy else None
             o.set_dummy_hand(dh)
-        oobs[i].append([ok, proj(o)])
+        oobs[i]['ops'].append([c, SEATS.index(p)])
+        oobs[i]['obs'].append([ok, unchanged, proj(o)])
 
 
 def static_avail(k):
